@@ -98,6 +98,7 @@ def run_task(task):
     path_alarm = task.get("path_alarm", h.meta.get("path_alarm", 30.0))
     core.INT_BOUND[0] = h.meta.get("int_bound", 64)
     core.FLOAT_POLICY["mix"] = h.meta.get("float_mix", "error")
+    core.ABS_POLICY["fork"] = h.meta.get("abs_fork", False)
 
     res = {
         "task": task, "paths": 0, "decisions": 0, "queries": 0, "solver_s": 0.0, "unknown": 0,
@@ -232,6 +233,7 @@ def explore_raw(hname, params, pre=None, max_paths=200000, canary=None, path_ala
     logic = h.meta.get("logic", "QF_NRA")
     core.INT_BOUND[0] = h.meta.get("int_bound", 64)
     core.FLOAT_POLICY["mix"] = h.meta.get("float_mix", "error")
+    core.ABS_POLICY["fork"] = h.meta.get("abs_fork", False)
     world = env.World()
     prefix = []
     n = 0
